@@ -926,4 +926,48 @@ def run_c08(seed, tree, tier, known):
             if victim.id in w.slots:
                 w.execute({"op": "drop", "in": [victim.id]}, rng)
             del victim
+    # (appended after everything else, so that the histories above are the same as before this pass existed)
+    first = (codes[0][0].id, codes[0][1]) if codes else None
+    codes = datas = s = d = new = base = c = c2 = j = j2 = t = cop = None  # no local may keep the originals alive
+    if first is not None and not w.stop:
+        variant_with_and_without_live_original(w, rng, first[0], first[1])
     return w, cfg
+
+
+def variant_with_and_without_live_original(w, rng, sid, cop0):
+    """Identical code objects imply equal CodeData, whatever else is alive: a VARIANT of the first program (another
+    file name: equal under CPython's code ==, which ignores file name, line table and stack size) is decoded
+    while the original and everything decoded from it are alive; then all of those are dropped and the same
+    variant code object is decoded again.  Both results enter the pool, where V5 compares them."""
+    s0 = w.slots.get(sid)
+    if s0 is None or s0.route != ["compile"] or s0.meta.get("n_code_objects", 1) < 2 or s0.meta.get("w", 0) > 3000:
+        return
+    del s0
+    v = w.execute(dict(cop0, filename="<c08-variant>"), rng)
+    if v is None or w.stop:
+        return
+    d2 = w.execute({"op": "from_code", "in": [v.id]}, rng)
+    if d2 is None or w.stop:
+        return
+    keep = (v.id, d2.id)
+    del v, d2
+    for i in sorted(w.slots):
+        if i not in keep and not w.stop:
+            w.execute({"op": "drop", "in": [i]}, rng)
+    if w.stop:
+        return
+    d3 = w.execute({"op": "from_code", "in": [keep[0]]}, rng)
+    w.count("fault_variant_decoded_with_and_without_live_original")
+    w.faults_fired += 1
+    d2 = w.slots.get(keep[1])
+    if d3 is None or d2 is None or w.stop:
+        return
+    # the very same code object, decoded twice: the two values must be equal (and hash alike)
+    res = sched._outcome(lambda: (d2.value == d3.value, d3.value == d2.value, hash(d2.value) == hash(d3.value)))
+    if res[0] != "ok":
+        w.violate("V2-eq-raises", "decode~decode-after-originals-dropped", res[1], {})
+    elif not (res[1][0] and res[1][1]):
+        loc = fp.diff_path(d2.snap, d3.snap) or "?"
+        w.violate("V5-same-code-but-unequal", "decode~decode-after-originals-dropped", loc, {"routes": [d2.route, d3.route]})
+    elif not res[1][2]:
+        w.violate("V4-equal-but-hash-differs", "decode~decode-after-originals-dropped", "CodeData", {})
